@@ -110,6 +110,51 @@ class AXISlave:
         self.cyc = c + 1
 
 
+class _Gate:
+    """Calls the wrapped agent only once `box[0]` is set (consumer asleep until then)."""
+
+    def __init__(self, inner, box):
+        self.inner, self.box = inner, box
+
+    def __call__(self, sim):
+        if self.box[0]:
+            self.inner(sim)
+
+
+class _Disabler:
+    """Reader `enable` seam: once the first k addresses are accepted (consumer asleep, words in flight / in the FIFO) drop `enable`,
+    hold it low until the memory side is idle and the FIFO had time to flush, raise it again, then wake the consumer."""
+
+    def __init__(self, sim, dut, drv, mem, k, hold, gate):
+        self.i_en = sim.index(dut.enable)
+        self.drv, self.mem, self.k, self.hold, self.gate = drv, mem, k, hold, gate
+        self.st, self.t = 0, 0
+
+    def __call__(self, sim):
+        if self.st == 0 and self.drv.n >= self.k:
+            self.st, self.t = 1, 3
+        elif self.st == 1:
+            self.t -= 1
+            if self.t <= 0:
+                sim.poke(self.i_en, 0)
+                sim.ev("enable", 0)
+                self.st, self.t = 2, self.hold
+        elif self.st == 2:
+            if self.mem.idle():
+                self.t -= 1
+            else:
+                self.t = max(self.t, self.hold)
+            if self.t <= 0:
+                sim.poke(self.i_en, 1)
+                sim.ev("enable", 1)
+                self.st, self.t = 3, 2
+        elif self.st == 3:
+            self.t -= 1
+            if self.t <= 0:
+                self.gate[0] = 1
+                self.st = 4
+
+
 def run(scn):
     d = scn["dut"]
     kind, ptype, dw, depth = d["kind"], d["port"], d["dw"], d["depth"]
@@ -150,7 +195,7 @@ def run(scn):
         mem = AXISlave(sim, port, nb, ar_ready=m.get("ar_ready"), r_lat=m.get("r_lat"), aw_ready=m.get("aw_ready"), w_ready=m.get("w_ready"))
     items = scn["items"]
     stats = {"words": 0, "max_outstanding": 0, "consumer_stall_cycles": 0, "lasts": 0, "duplicate_addresses": 0,
-             "fifo_full_hits": 0}
+             "fifo_full_hits": 0, "disable_runs": 0}
     seen = set()
     for it in items:
         if it["address"] in seen:
@@ -167,7 +212,14 @@ def run(scn):
         sc_out = StallCounter(sim, dut.source.valid, dut.source.ready)
         sc_in = StallCounter(sim, dut.sink.valid, dut.sink.ready)
         agents = [drv, snk, mem]
+        dis = scn.get("disable")
+        if dis and not core:
+            gate = [0]
+            agents = [drv, _Gate(snk, gate), mem, _Disabler(sim, dut, drv, mem, dis["k"], dis["hold"], gate)]
+        else:
+            dis = None
     else:
+        dis = None
         for k, it in enumerate(items):
             it["data"] = word_of(it["id"], nb)
         drv = StreamDriver(sim, dut.sink, items, ["address", "data", "last"])
@@ -181,7 +233,8 @@ def run(scn):
     pats = (scn.get("ready") or []) + (m.get("cmd_ready") or []) + (m.get("ar_ready") or []) + (m.get("aw_ready") or []) + (m.get("w_ready") or [])
     stall = sum(a + b for a, b in pats) + 1
     n = len(items)
-    cap = 500 + sum(it.get("delay", 0) for it in items) + n * (stall + max(m.get("extra") or m.get("r_lat") or [0]) + m.get("rl1", 3) + 10)
+    nflush = dis["k"] if dis else 0     # addresses accepted before the disable: flushed, never delivered
+    cap = (1500 + 4 * depth if dis else 0) + 500 + sum(it.get("delay", 0) for it in items) + n * (stall + max(m.get("extra") or m.get("r_lat") or [0]) + m.get("rl1", 3) + 10)
     if core:
         cap += 2000 + 60 * n
     need_quiet = 60 + max([b for a, b in pats] or [0]) + max(m.get("extra") or m.get("r_lat") or [0]) + 20
@@ -194,12 +247,12 @@ def run(scn):
         if not cyc & 63 and stuck(sim, cyc):
             break       # no handshake anywhere for 60000 cycles: the run is stuck, do not spin to the cap
         if kind == "reader":
-            o = drv.n - len(out)
+            o = max(0, drv.n - nflush) - len(out)
             if o > stats["max_outstanding"]:
                 stats["max_outstanding"] = o
             if o > cap_out + 1:
                 viol.add("reservation", "%d reads accepted and not yet delivered with fifo_depth %d" % (o, depth))
-            fin = drv.done() and len(out) >= n and mem.idle()
+            fin = drv.done() and len(out) >= n - nflush and mem.idle()
         else:
             fin = drv.done() and mem.idle() and (len(mem.log) >= n if ptype == "native" else len(mem.wlog) >= n)
         if fin:
@@ -209,12 +262,14 @@ def run(scn):
         else:
             quiet = 0
     if kind == "reader":
-        exp = [(init_word(it["address"], nb), it.get("last", 0)) for it in items]
+        exp = [(init_word(it["address"], nb), it.get("last", 0)) for it in items[nflush:]]
         for k, (a, b) in enumerate(zip(out, exp)):
             if a != b:
-                viol.add("read_stream", "output word #%d is (0x%x, last=%d), expected (0x%x, last=%d) for address 0x%x"
-                         % (k, a[0], a[1], b[0], b[1], items[k]["address"]))
+                viol.add("read_stream", "output word #%d%s is (0x%x, last=%d), expected (0x%x, last=%d) for address 0x%x"
+                         % (k, " after re-enable" if dis else "", a[0], a[1], b[0], b[1], items[nflush + k]["address"]))
                 break
+        stats["disable_runs"] = 1 if dis else 0
+        n -= nflush
         if len(out) != n:
             viol.add("read_count" if drv.done() else "hang", "%d addresses given (%d accepted), %d words delivered after %d cycles"
                      % (n, drv.n, len(out), cyc))
@@ -299,6 +354,14 @@ def _gen(rng, tier, index):
             scn["ready"] = [[0, rng.randint(40, 200)]] + [[1, rng.randint(0, 6)] for _ in range(rng.randint(1, 4))]
         else:
             scn["ready"] = gen_pattern(rng, k)
+        if rng.random() < 0.12 and n >= 3:
+            # disable / flush / re-enable with words in flight and a sleeping consumer: the stream after re-enable must be exactly the
+            # addresses accepted after it (data, order, last marks); the first k addresses are flushed
+            k = rng.randint(1, min(depth, n - 2))
+            for it in items[:k]:
+                it["delay"] = 0
+            items[k]["delay"] = 1200 + 4 * depth
+            scn["disable"] = {"k": k, "hold": depth + 4 + rng.randint(0, 30)}
     if ptype == "native":
         wl1 = rng.randint(1, 6)
         scn["mem"] = {"cmd_ready": gen_pattern(rng), "max_out": rng.randint(3, 40), "wl1": wl1, "rl1": rng.randint(wl1 + 1, 14),
